@@ -1,5 +1,7 @@
 //! C13 — WatermarkedStream under every watermark / late-data strategy.
-//! case := `<W> <L> <ev,ev,...>`  W ∈ B<delay>|M|C|P<interval> ; L ∈ D|A<max>|S|R ; event ids are positions.
+//! case := `<W> <L> <ev,ev,...>`  W ∈ B<dur>|M|C|P<interval> ; L ∈ D|A<dur>|S|R ; event ids are positions.
+//! dur := <ms> (Duration::from_millis) | <secs>s<nanos> (Duration::new(secs, nanos), nanos < 10^9) | MAX (Duration::MAX): the
+//! configured max_delay / max_lateness is a `Duration`; the code works with `d.as_millis() as u64` (model: `C13.durMillisU64`).
 //! ev := <ts> | <ts>@<now>: `now` is the reading (ms) of the generator's processing-time clock when the event is
 //! offered (hook `watermark::verif_clock`, cfg rre_verif; default 0; the stream is created at reading 0).
 //! obs  := step;step;…  step := wm/hist/events/side/late,dropped,allowed,sidecount
@@ -28,6 +30,20 @@ fn join_evs(v: &[(u64, u64)]) -> String {
     v.iter().map(|(t, n)| if *n == 0 { t.to_string() } else { format!("{}@{}", t, n) }).collect::<Vec<_>>().join(",")
 }
 
+/// `<ms>` | `<secs>s<nanos>` | `MAX`
+fn parse_dur(s: &str) -> Option<Duration> {
+    if s == "MAX" {
+        return Some(Duration::MAX);
+    }
+    match s.split_once('s') {
+        None => Some(Duration::from_millis(s.parse().ok()?)),
+        Some((a, b)) => {
+            let (secs, nanos): (u64, u32) = (a.parse().ok()?, b.parse().ok()?);
+            if nanos < 1_000_000_000 { Some(Duration::new(secs, nanos)) } else { None }
+        }
+    }
+}
+
 fn parse_case(case: &str) -> Option<(WatermarkStrategy, LateDataStrategy, Vec<(u64, u64)>)> {
     let t: Vec<&str> = case.split_whitespace().collect();
     if t.len() != 3 {
@@ -37,7 +53,7 @@ fn parse_case(case: &str) -> Option<(WatermarkStrategy, LateDataStrategy, Vec<(u
         "M" => WatermarkStrategy::MonotonicAscending,
         "C" => WatermarkStrategy::Custom,
         s if s.starts_with('B') => WatermarkStrategy::BoundedOutOfOrder {
-            max_delay: Duration::from_millis(s[1..].parse().ok()?),
+            max_delay: parse_dur(&s[1..])?,
         },
         s if s.starts_with('P') => WatermarkStrategy::Periodic {
             interval: Duration::from_millis(s[1..].parse().ok()?),
@@ -49,7 +65,7 @@ fn parse_case(case: &str) -> Option<(WatermarkStrategy, LateDataStrategy, Vec<(u
         "S" => LateDataStrategy::SideOutput,
         "R" => LateDataStrategy::RecomputeWindows,
         s if s.starts_with('A') => LateDataStrategy::AllowedLateness {
-            max_lateness: Duration::from_millis(s[1..].parse().ok()?),
+            max_lateness: parse_dur(&s[1..])?,
         },
         _ => return None,
     };
@@ -268,7 +284,56 @@ fn gen(rng: &mut Rng, n: usize, tier: &str) -> Vec<String> {
         };
         out.push(format!("B{} {} {}", d, l, join_nums(&ts)));
     }
+    dur_family(rng, n, &mut out);
     out
+}
+
+/// configured durations that are NOT a whole number of milliseconds below 2^64: `Duration::MAX` (the idiom for "no limit"),
+/// `from_secs(u64::MAX)`, whole seconds whose milliseconds pass 2^64 (`as_millis() as u64` keeps the low 64 bits: 2^64 ms + 384,
+/// 2^55 s), the values just below / at / above 2^64 ms, 2^54 s (fits), and sub-millisecond parts (999_999 ns is 0 ms, 1_000_001 ns
+/// is 1 ms, 1 s + 999_999_999 ns is 1999 ms)
+const DURS: [&str; 22] = [
+    "MAX", "18446744073709551615s0", "18446744073709551615s999999998", "18446744073709551s615000000", "18446744073709551s615999999",
+    "18446744073709551s616000000", "18446744073709551s617000000", "18446744073709551s620999999", "18446744073709552s0",
+    "18446744073709552s1000000", "18446744073709553s0", "36028797018963968s0", "18014398509481984s0", "9223372036854775808s0",
+    "0s0", "0s999999", "0s1000000", "0s1000001", "0s1999999", "0s3500000", "1s999999999", "0s999999999",
+];
+/// every such duration as max_delay (with every late strategy) and as max_lateness (behind watermarks that move: ascending, bounded
+/// by a small delay, bounded by the same duration), on fixed out-of-order sequences (small timestamps: a wrapped delay of 0 / 1 / 384
+/// / 616 ms decides; huge timestamps: a delay of u64::MAX - 999 decides) and on random ones
+fn dur_family(rng: &mut Rng, n: usize, out: &mut Vec<String>) {
+    let fixed: [&[u64]; 7] = [
+        &[1000, 2000, 500, 1950, 3000, 10, 2899, 2900, 0, 3000],
+        &[5, 3, 4, 9, 0, 8],
+        &[400, 16, 1000, 615, 617, 385, 383],
+        &[u64::MAX, 0, u64::MAX - 1, 999, 1001],
+        &[1u64 << 63, 1, (1u64 << 63) + 1000, 1u64 << 62],
+        &[0, 1, 2, 1, 0],
+        &[18446744073709550616, 1000, 999, 18446744073709551615, 1001, 616],
+    ];
+    for d in DURS {
+        for ts in fixed {
+            for l in ["D", "A5", "S", "R"] {
+                out.push(format!("B{} {} {}", d, l, join_nums(ts)));
+            }
+            out.push(format!("B{} A{} {}", d, d, join_nums(ts)));
+            for w in ["M", "B0", "B3", "B0s999999", "P0"] {
+                out.push(format!("{} A{} {}", w, d, join_nums(ts)));
+            }
+        }
+    }
+    for _ in 0..(n / 6).max(200) {
+        let len = rng.range(1, 12) as usize;
+        let dom = *rng.pick(&[4u64, 40, 700, 3000]);
+        let ts: Vec<u64> = (0..len).map(|_| if rng.chance(1, 12) { u64::MAX - rng.below(1200) } else { rng.below(dom) }).collect();
+        let d = *rng.pick(&DURS);
+        let (w, l) = match rng.below(3) {
+            0 => (format!("B{}", d), match rng.below(4) { 0 => "D".to_string(), 1 => "S".to_string(), 2 => "R".to_string(), _ => format!("A{}", rng.pick(&DURS)) }),
+            1 => (if rng.chance(1, 2) { "M".to_string() } else { format!("B{}", rng.below(5)) }, format!("A{}", d)),
+            _ => (format!("B{}s{}", rng.below(3), rng.below(1_000_000_000)), format!("A{}s{}", rng.below(2), rng.below(1_000_000_000))),
+        };
+        out.push(format!("{} {} {}", w, l, join_nums(&ts)));
+    }
 }
 
 fn shrink(case: &str) -> Vec<String> {
